@@ -528,11 +528,11 @@ def angdiff(a, b=None):
         >>> angdiff(3 * pi)
 
     """
-    a = np.asarray(a)
+    a = np.asarray(a, dtype=np.float64)
     if b is None:
         return np.mod(a + math.pi, 2 * math.pi) - math.pi
     else:
-        return np.mod(a - np.asarray(b) + math.pi, 2 * math.pi) - math.pi
+        return np.mod(a - np.asarray(b, dtype=np.float64) + math.pi, 2 * math.pi) - math.pi
 
 def removesmall(v, tol=100):
     """
